@@ -182,6 +182,11 @@ def build_input(exe, sh):
         env["LBZIP2_VERIF_OUT_GRANUL"] = str(max(sh["outg"], len(d) // 5000 + 1))
     if fam == "trunc":
         z = z[:max(5, len(z) * (1 + sh["seed"] % 7) // 8)]
+        if sh["seed"] % 2 and len(z) > 300:
+            # cut exactly at an input-block edge: the last read() returns 0 bytes, no data block accompanies the end of input
+            g = int(env.get("LBZIP2_VERIF_IN_GRANUL", 0)) or 256
+            env["LBZIP2_VERIF_IN_GRANUL"] = str(g)
+            z = z[:4 + (len(z) - 4) // g * g]
         return ["-d"], z, ("rc1",), env
     return ["-d"], z, ("bytes", d), env
 
@@ -337,7 +342,7 @@ def replay_file(path):
 def run(tier, seed):
     t0 = time.time()
     exes = core.build_many(["rel", "asan"])
-    n = 320 if tier == "quick" else 12000
+    n = 260 if tier == "quick" else 5000
     stats, fails = core.hyp_search(strategy(tier != "quick"), make_eval(exes), n, seed)
     oc = core.conclude(PID, fails, replay_case)
     core.write_evidence(PID, tier, seed, "exploration", stats, RULE, time.time() - t0,
